@@ -410,7 +410,11 @@ def execute(doc):
         rec.fault('stream_fail')
         rec.event(step, 'calibrate', 'stream-failed')
       except Exception as e:  # pylint: disable=broad-except
-        rec.event(step, 'calibrate', 'raised:' + harness.exc_class(e))
+        if fs is not None and fs.raised:
+          rec.fault('stream_fail')
+          rec.event(step, 'calibrate', 'stream-failed')
+        else:
+          rec.event(step, 'calibrate', 'raised:' + harness.exc_class(e))
       if ret is not None:
         calibs[op['out']] = {'obj': ret, 'pristine': pickle.dumps(ret, protocol=4),
                              'model': Q['model']}
